@@ -79,6 +79,28 @@ class Source:
         nm = name or ((within.name + '::' if within is not None else '') + fname)
         return Item(self, st, end, nm)
 
+    def items_all(self, pattern, name=None):
+        """all items whose header matches pattern"""
+        out = []
+        pos = 0
+        while True:
+            m = rp.find_code_re(self.text, self.mask, pattern, pos)
+            if not m:
+                break
+            end = rp.item_end(self.text, self.mask, m.start())
+            out.append(Item(self, m.start(), end, name or pattern))
+            pos = end
+        return out
+
+    def fn_in_impls(self, impl_pattern, impl_name, fname):
+        """fn `fname` that is a direct child of one of the (possibly many) impl blocks matching impl_pattern"""
+        for imp in self.items_all(impl_pattern, impl_name):
+            try:
+                return self.fn(fname, within=imp), imp
+            except LostAnchor:
+                continue
+        raise LostAnchor('%s::%s' % (impl_name, fname), 'fn %s not found in any `%s` block' % (fname, impl_name), True)
+
     def _depth(self, a, b):
         d = 0
         for i in range(a, b):
@@ -448,3 +470,83 @@ def _anchor_soft(self, anchor, occ):
 
 Item.sub = _sub
 Item._anchor_soft = _anchor_soft
+
+
+def _tail_span(self):
+    """(start, end) offsets in self.orig of the tail expression of the fn body, or None"""
+    a, b = self.body_open + 1, len(self.orig) - 1
+    text, mask = self.orig, self.mask
+    depth = 0
+    last = a
+    i = a
+    while i < b:
+        if mask[i]:
+            ch = text[i]
+            if ch in '({[':
+                depth += 1
+            elif ch in ')}]':
+                depth -= 1
+            elif ch == ';' and depth == 0:
+                last = i + 1
+        i += 1
+
+    def skip_ws(p):
+        while p < b and (text[p].isspace() or not mask[p]):
+            # only skip comments, not literals: literals are non-code too, so check comment starts
+            if not mask[p] and not (text.startswith('//', p) or text.startswith('/*', p) or _in_comment(text, mask, p)):
+                break
+            p += 1
+        return p
+
+    p = skip_ws(last)
+    while p < b:
+        m = re.match(r'(if|match|for|while|loop|unsafe)\b|\{', text[p:])
+        if not m:
+            break
+        # find the end of this block-like expression (including else chains)
+        q = p
+        while True:
+            ob = rp.next_open_brace(text, mask, q, b)
+            if ob < 0:
+                return None
+            cb = rp.match_close(text, mask, ob)
+            nxt = skip_ws(cb + 1)
+            if text.startswith('else', nxt):
+                q = nxt + 4
+                continue
+            break
+        if nxt >= b:
+            break          # the block expression IS the tail
+        if text[nxt] in '.?' :
+            break          # method call on the block: part of the tail expression
+        p = nxt
+    e = b
+    while e > p and (text[e - 1].isspace()):
+        e -= 1
+    if e <= p:
+        return None
+    return p, e
+
+
+def _in_comment(text, mask, p):
+    # non-code byte that is not part of a string/char literal: walk back to the start of the non-code run
+    s = p
+    while s > 0 and not mask[s - 1]:
+        s -= 1
+    return text.startswith('//', s) or text.startswith('/*', s)
+
+
+def _tail(self, ghost, name='r__'):
+    """desugaring 5: the tail expression `E` of the body => `let r__ = E; <ghost> r__`"""
+    check_ghost_statements(ghost, self.name)
+    sp = self._tail_span()
+    if sp is None:
+        raise LostAnchor(self.name, 'no tail expression', True)
+    s, e = sp
+    self._add(s, 'tail_open', 0, 'let %s = ' % name)
+    self._add(e, 'tail_close', 0, ';\n        ' + ghost.strip() + '\n        ' + name)
+    return self
+
+
+Item._tail_span = _tail_span
+Item.tail = _tail
